@@ -139,7 +139,9 @@ def run(ctx):
                     args.append(g.optarg() if rng.random() < 0.3 else None)
                 else:
                     args.append(g.optarg())
-            items += [g.word(), {'t': 'ws', 's': ' '}, {'t': 'call', 'm': m, 'args': args, 'single': False, 'sp': ''},
+            # a call without any visible argument may end with the control word itself (followed by white space) or with {}
+            bare = all(a is None for a in args) and rng.random() < 0.6
+            items += [g.word(), {'t': 'ws', 's': ' '}, {'t': 'call', 'm': m, 'args': args, 'single': False, 'sp': 'bare' if bare else ''},
                       {'t': 'ws', 's': rng.choice([' ', '\n', '\n\n'])}]
         items.append(g.word())
         ast = {'t': 'seq', 'items': items}
